@@ -8,6 +8,7 @@ CONSTANTS
  StoreKind = "interval"
  Cap = 2
  Strategy = "joint"
+ NOver = 0
  ModelKind = "scalar"
  CommitEarly = FALSE
  MaxCalls = 3
